@@ -15,10 +15,14 @@ class FunctionReport:
         self.vacuity = []          # problems
         self.seconds = 0.0
         self.variants = 0
+        self.canary = ''           # how non-vacuity was witnessed
 
     @property
-    def ok(self):
-        return self.out_of_subset is None and not self.vacuity and all(r.discharged for r in self.results)
+    def proved(self):
+        return self.out_of_subset is None and not self.vacuity and bool(self.results) and all(r.discharged for r in self.results)
+
+    def failed(self):
+        return [r for r in self.results if not r.discharged]
 
 
 def variants_of(c):
@@ -46,6 +50,8 @@ def verify_contract(c, prefix='', timeout_s=10, both=False, source_override=None
     except KeyError as e:
         rep.out_of_subset = 'function not found: %s' % e
         return rep
+    canary_ok = False
+    n_canaries = 0
     for vt, vlabel in variants_of(c):
         rep.variants += 1
         qn = '%s%s::%s%s' % (prefix, c.path, c.qualname, ('{%s}' % vlabel) if vlabel else '')
@@ -64,5 +70,17 @@ def verify_contract(c, prefix='', timeout_s=10, both=False, source_override=None
             rep.vacuity.append('%s: zero obligations' % qn)
         for ob in obls:
             rep.results.append(smt.discharge(ob, timeout_s=timeout_s, both=both))
+        # canary: `False` at a normal exit must NOT be provable (else the path conditions are contradictory)
+        for cn in eng.canaries:
+            n_canaries += 1
+            if canary_ok:
+                break
+            r = smt.discharge(cn, timeout_s=1, dump_failed=False)
+            if r.verdict != 'unsat':
+                canary_ok = True
+                rep.canary = '%s: %s' % (cn.oid, r.verdict)
+    if rep.out_of_subset is None and not getattr(c, 'never_returns', False):
+        if n_canaries == 0 or not canary_ok:
+            rep.vacuity.append('%s: no normal exit is reachable (canary `False` was provable at every exit)' % c.key)
     rep.seconds = time.time() - t0
     return rep
